@@ -1,4 +1,4 @@
-//go:build verif
+//go:build verif || verifmin
 
 // C16: short-vector reduction and the delta-scaled verification equation are sound.
 // Monitors: (1) postcondition of every FindShortVector call on adversarially structured k,
@@ -235,18 +235,9 @@ func triple(r *mon.Run, c Case, ks []*big.Int) {
 		run("ExpandedTripleScalarMulBasepointVartime", func() bool {
 			return curve.NewEdwardsPoint().ExpandedTripleScalarMulBasepointVartime(sa, curve.NewExpandedEdwardsPoint(Alib), sb, Clib).IsSmallOrder()
 		})
-		run("internal/TripleGeneric", func() bool {
-			return curve.VerifTripleGeneric(curve.NewEdwardsPoint(), sa, Alib, sb, Clib).IsSmallOrder()
-		})
-		if !curve.VerifVector() {
-			run("internal/ExpandedTripleGeneric", func() bool {
-				return curve.VerifExpandedTripleGeneric(curve.NewEdwardsPoint(), sa, curve.NewExpandedEdwardsPoint(Alib), sb, Clib).IsSmallOrder()
-			})
-		} else {
-			vectorTriple(run, sa, sb, Alib, Clib)
-		}
+		internalTriples(run, sa, sb, Alib, Clib)
 		// Ristretto variants: representatives must lie in 2E (even torsion); identity of the quotient <=> small order... of the E[4] kind
-		if ti%2 == 0 && tj%2 == 0 {
+		if ti%2 == 0 && tj%2 == 0 && gx.Available {
 			rA, rC := gx.RistrettoFromEdwards(Alib), gx.RistrettoFromEdwards(Clib)
 			run("Ristretto.TripleScalarMulBasepointVartime", func() bool {
 				return gx.EdwardsFromRistretto(curve.NewRistrettoPoint().TripleScalarMulBasepointVartime(sa, rA, sb, rC)).IsSmallOrder()
